@@ -2,6 +2,8 @@
 compare, shrink, classify, write replay and evidence."""
 import hashlib
 import json
+import sys as _sys
+_sys.setrecursionlimit(20000)
 import os
 import re
 import shutil
